@@ -6,6 +6,7 @@ import (
 	"fmt"
 	"os"
 	"sort"
+	"strings"
 	"testing"
 	"testing/synctest"
 	"time"
@@ -138,9 +139,26 @@ func runOne(t *testing.T, c *sim.Case, runSeed uint64, tape []int64, replay, tra
 	if err != nil {
 		t.Fatalf("world %s: %v", c.World, err)
 	}
-	synctest.Test(t, func(t *testing.T) {
-		res, rec = sim.ExecuteRec(c, w, runSeed, tape, replay, trace)
-	})
+	func() {
+		defer func() {
+			// goroutines that block where the simulator cannot reach them (a call the rewriter does not
+			// know, made by an edited library) outlive the run: synctest reports that as a deadlock
+			// panic. What the run found stands; the process is not used for another run.
+			if v := recover(); v != nil {
+				if msg := fmt.Sprint(v); res != nil && strings.Contains(msg, "main bubble goroutine has exited") {
+					res.Dirty = true
+					if res.HarnessError == "" && res.Inconclusive == "" && len(res.Violations) == 0 {
+						res.HarnessError = "goroutines blocked outside the simulator's reach at the end of the run: " + msg
+					}
+					return
+				}
+				panic(v)
+			}
+		}()
+		synctest.Test(t, func(t *testing.T) {
+			res, rec = sim.ExecuteRec(c, w, runSeed, tape, replay, trace)
+		})
+	}()
 	if pc, ok := w.(sim.PostChecker); ok && res != nil {
 		pc.Post(res)
 	}
